@@ -28,6 +28,59 @@ pub fn run(cx: &mut Ctx) {
     let p = Prog { shape: Shape::KG, src: vec![V::pair(V::I(0), V::L(vec![V::I(1)])), V::pair(V::I(0), V::L(vec![V::I(2)]))], steps: vec![Step::CombineValuesLifted(Comb::Sum)] };
     check_prog(cx, &p, &[Mode::Seq, Mode::Par(2)], &o);
 
+    // ties: values of EQUAL `to_int` but different structure. `V::cmp` / Lean `Val.le` break such ties by the
+    // structural order (variant rank I < S < U < N < O < P < L, then the components) — every ordered pair
+    // through Max / TopK(1), then whole tie classes through per-key / lifted / global TopK(k) so that the
+    // cut falls between every two neighbours (extend path and two-pointer path of `TopK::merge`).
+    {
+        let s = |x: &str| V::S(x.to_string());
+        let so = |v: V| V::O(Box::new(v));
+        let two: Vec<V> = vec![
+            V::I(2), s("bb"), s("ab"), s("b0"), V::pair(V::I(1), V::I(1)), V::pair(V::I(0), V::I(2)), V::pair(s("a"), V::I(1)),
+            V::pair(V::I(1), s("a")), V::pair(V::U, V::I(2)), so(V::I(2)), so(s("bb")), so(so(V::I(2))), so(V::pair(V::I(1), V::I(1))),
+            V::L(vec![V::I(7), V::I(7)]), V::L(vec![V::I(7), V::I(8)]), V::L(vec![V::I(-7), s("zz")]), V::L(vec![s(""), V::N]),
+            V::L(vec![V::L(vec![]), V::U]), V::L(vec![V::L(vec![V::I(1)]), V::I(0)]), so(V::L(vec![V::N, V::U])),
+        ];
+        let zero: Vec<V> = vec![
+            V::I(0), s(""), V::U, V::N, so(V::N), so(V::U), so(V::I(0)), V::pair(V::U, V::N), V::pair(V::N, V::U), V::pair(V::I(-1), V::I(1)),
+            V::pair(V::I(1), V::I(-1)), V::L(vec![]), so(V::L(vec![])), V::pair(s(""), V::L(vec![])),
+        ];
+        let mut n_ties = 0;
+        for class in [&two, &zero] {
+            for a in class.iter() {
+                for b in class.iter() {
+                    for c in [Comb::MaxT, Comb::Topk(1)] {
+                        let p = Prog { shape: Shape::T, src: vec![a.clone(), b.clone()], steps: vec![Step::CombineGlobally(c, None)] };
+                        check_prog(cx, &p, &[Mode::Seq, Mode::Par(2)], &o);
+                        n_ties += 1;
+                    }
+                }
+            }
+            let n = class.len();
+            for rot in [0usize, 3, 7, 11] {
+                let src: Vec<V> = (0..n).map(|i| class[(i * 5 + rot) % n].clone()).chain(class.iter().take(4).cloned()).collect();
+                for k in [1usize, 2, 3, 5, 8, 13] {
+                    let progs = [
+                        Prog { shape: Shape::T, src: src.clone(), steps: vec![Step::KeyBy(KeyFn::Kconst(7)), Step::TopKPerKey(k)] },
+                        Prog { shape: Shape::T, src: src.clone(), steps: vec![Step::KeyBy(KeyFn::Kconst(7)), Step::Gbk, Step::CombineValuesLifted(Comb::Topk(k))] },
+                        Prog { shape: Shape::T, src: src.clone(), steps: vec![Step::CombineGlobally(Comb::Topk(k), Some(2))] },
+                        Prog { shape: Shape::T, src: src.clone(), steps: vec![Step::CombineGloballyLifted(Comb::Topk(k), None)] },
+                    ];
+                    for p in &progs {
+                        check_prog(cx, p, &[Mode::Seq, Mode::Par(2), Mode::Par(3), Mode::Par(7)], &o);
+                        n_ties += 1;
+                    }
+                }
+                for c in [Comb::MinT, Comb::MaxT, Comb::Min, Comb::Max] {
+                    let p = Prog { shape: Shape::T, src: src.clone(), steps: vec![Step::KeyBy(KeyFn::Kconst(7)), Step::CombineValues(c)] };
+                    check_prog(cx, &p, &[Mode::Seq, Mode::Par(3)], &o);
+                    n_ties += 1;
+                }
+            }
+        }
+        cx.exhaustive_blocks.push(format!("tie classes (to_int = 2: {} values, to_int = 0: {} values): every ordered pair x {{MaxT, TopK(1)}} x seq/par 2; rotations x k in {{1,2,3,5,8,13}} x per-key/lifted/global/global-lifted TopK x seq + par 2,3,7; Min/Max per key ({n_ties} programs)", two.len(), zero.len()));
+    }
+
     // exhaustive small scope: inputs 0..=5 rows x every combiner x every fan-out x partitions 1..6
     let fanouts = [None, Some(0), Some(1), Some(2), Some(3), Some(7)];
     let maxn = cx.budget(5, 7);
